@@ -433,8 +433,9 @@ def gen_requirements(rnd: random.Random, n: int) -> T.Tuple[T.List[str], T.List[
 
 
 CFG_NAMES = ['unix', 'windows', 'target_os', 'target_arch', 'target_family', 'target_env', 'feature', 'debug_assertions',
-             'a_b', '_x1', 'Test', 'target_pointer_width']
-CFG_VALUES = ['linux', 'windows', 'x86_64', 'crt-static', '', '64', 'musl', 'a.b', 'Mixed_Case-1']
+             'a_b', '_x1', 'Test', 'target_pointer_width', 'notify', 'all_features', 'any1', 'not_', 'allx', 'anyhow', 'ALL']
+# string values spelled like operator words are ordinary values
+CFG_VALUES = ['linux', 'windows', 'x86_64', 'crt-static', '', '64', 'musl', 'a.b', 'Mixed_Case-1', 'all', 'any', 'not', 'all', 'notify']
 CFG_DELIM_VALUES = ['a b', 'a,b', 'x(y', 'k=v', 'z)']
 
 
@@ -504,12 +505,18 @@ def fixed_probes() -> T.List[T.Dict[str, T.Any]]:
     def cfgcase(text: str, cfg: T.Dict[str, str]) -> T.Dict[str, T.Any]:
         return {'k': 'cfg', 'text': cp(text), 'cfgs': [[{'n': cp(n), 'v': cp(v)} for n, v in cfg.items()], []]}
     lin = {'target_os': 'linux', 'unix': '', 'feature': 'a,b', 'a': 'x'}
+    kw = {'feature': 'all', 'target_os': 'any', 'all_features': 'not', 'notify': '', 'any1': 'x'}
+    kwcases = [cfgcase(t, kw) for t in [
+        'cfg(feature = "all")', 'cfg(feature="any")', 'cfg(not(target_os = "any"))', 'cfg(all_features = "not")',
+        'cfg(any(notify, all_features = "not"))', 'cfg(all(any1, notify, not(anyhow)))', 'cfg(any1 = "x")', 'cfg(not_)',
+        'cfg(all(feature = "all", target_os = "any", all_features = "not"))', 'cfg(feature = " all")', 'cfg(any(feature = "not"))',
+        'cfg(notify)', 'cfg(all_features)', 'cfg(allx)', 'cfg(feature = "all" )', 'cfg( feature = "all")']]
     cases = [cfgcase(t, lin) for t in [
         'cfg(target_os = "linux")', 'cfg(target_os = " linux")', 'cfg(target_os = "linux ")', 'cfg(feature = "a,b")',
         'cfg(any(windows, feature = "a b"))', 'cfg(a"= x")', 'cfg(unix")', 'cfg(a-b)', 'cfg(1a)', 'cfg(all(unix, target_os = "linux",))',
         'cfg(all)', 'cfg( all )', 'cfg(not(any))', 'cfg(all(unix target_os))', 'cfg(unix) ', 'cfg()', 'cfg(target_env = "")',
         'cfg(not(not(not(not(not(unix))))))', 'cfg(unix = "")', 'cfg(= "x")', 'cfg("x")', 'cfg(unix,)', 'cfg(unix unix)']
-        if t.startswith('cfg(') and t.endswith(')')]
+        if t.startswith('cfg(') and t.endswith(')')] + kwcases
     for trip in [['1.0.0-a.0b', '1.0.0-a.1', '1.0.0-a.0'], ['1.0.0-10', '1.0.0-9', '1.0.0-9a'], ['1.0.0-rc.10', '1.0.0-rc.9', '1.0.0-rc'],
                  ['2.0.0', '2.0.0-0', '2.0.0+0'], ['1.0.0-alpha', '1.0.0-alpha.1', '1.0.0-alpha.beta'], ['1.0.0-0a', '1.0.0-1', '1.0.0-00x']]:
         cases.append({'k': 'svtri', 's': [cp(x) for x in trip]})
@@ -554,7 +561,7 @@ def main(chk: Check) -> None:
     chk.rule = ('A: full SemVer pair table over the exported domain (numbers {0,1(,2)}^3 x pre-release lists, 2 spellings each); '
                 'every exported comparator (7 operators x partial versions over {0,1,2}, pre-release tags on full versions; '
                 'alone and with each exported second comparator) against every exported version ({0..3}^3 x pre-release lists); '
-                'every cfg token sequence up to the bound (plus a seeded sample one token longer in the thorough tier) over {all any not ( ) , = a b "x" "y"} under all 16 settings of a, b. '
+                'every cfg token sequence up to the bound (plus a seeded sample one token longer in the thorough tier) over {all any not ( ) , = a notify "x" "all"} under all 16 settings of a, notify. '
                 'B: seeded random SemVer triples, requirement lists, cfg trees and malformed cfg texts. Non-trivial = distinct '
                 'requirements accepting some but not all versions, distinct SemVer pairs differing in a pre-release identifier, '
                 'distinct cfg texts that are well-formed or rejected for a reason other than the first token.')
